@@ -91,6 +91,11 @@ let handle op args = match op, args with
     "ok:" ^ b2s (m_crossed a b ki) ^ " ok:" ^ b2s (m_sameInterval a b ki)
   | "mgpk", [h; ki; n] ->
     "ok:" ^ hex_of_z (m_previousKeystone (z_of_hex h) (z_of_hex ki) (z_of_hex n))
+  | "ktx", [ta; chain; t; hs] ->
+    (* getKeystoneContext as coded and its specification; "n" = NO_ENDORSEMENT *)
+    let hl = if hs = "-" then [] else List.map (fun x -> nat_of_int (int_of_string ("0x" ^ x))) (String.split_on_char ',' hs) in
+    let sh = function None -> "n" | Some n -> Printf.sprintf "%x" (int_of_nat n) in
+    sh (ktx (ta = "1") (zl_of_csv chain) (z_of_hex t) hl) ^ " " ^ sh (ktx_spec (ta = "1") (zl_of_csv chain) (z_of_hex t) hl)
   | "params", [] ->
     let l t = String.concat "," (List.map hex_of_z t) in
     Printf.sprintf "alt %s %s %s vbk %s %s %s"
